@@ -16,6 +16,7 @@ structure Obs where
   ss : Bool                 -- its `shouldStop`
   ff : Option Bool          -- its `failfast` attribute (none: it has none)
   leafStop : List Bool      -- `shouldStop` of every leaf
+  leafFF : List Bool        -- `failfast` of every leaf
 deriving Repr, DecidableEq
 
 structure Trace where
@@ -47,7 +48,7 @@ def readFF (s : Shape) (st : St s) : Option Bool :=
 
 def observe (s : Shape) (st : St s) : Obs :=
   { ws := wasSuccessfulOf s st, ss := shouldStopOf s st, ff := readFF s st,
-    leafStop := (leaves s st).map LeafSt.shouldStop }
+    leafStop := (leaves s st).map LeafSt.shouldStop, leafFF := (leaves s st).map LeafSt.failfast }
 
 def states (s : Shape) : St s → List Call → List (St s)
   | _, [] => []
